@@ -74,6 +74,8 @@ func (g *Gen) opNew(dt string, shape []int) Op {
 	}
 	if !g.noFault && g.r.Intn(10) == 0 {
 		op.N |= 4
+	} else if (dt == "float64" || dt == "float32") && g.r.Intn(8) == 0 {
+		op.N |= 8 // the specialised float engine
 	}
 	return op
 }
@@ -432,6 +434,16 @@ func (g *Gen) genFamily(fam string) (Op, bool) {
 			}
 			return Op{Name: "Narrow", In: []int{a}, I: []int{dim, st, ln}, Out: g.newSlot()}, true
 		}
+		switch r.Intn(10) {
+		case 0:
+			if d := g.pickWritable(func(x *tensor.Dense) bool { return !x.IsView() }); d >= 0 && d != a {
+				return Op{Name: "SliceInto", In: []int{a}, R: d, I: g.sliceEnc(t), Out: g.newSlot()}, true
+			}
+		case 1:
+			ax := r.Intn(t.Dims())
+			reps := []int{1 + r.Intn(3)}
+			return Op{Name: "ShapeCalc", In: []int{a}, I: g.sliceEnc(t), J: append(reps, g.perm(t.Dims())...)[:1], N: ax, Out: -1}, true
+		}
 		return Op{Name: "Slice", In: []int{a}, I: g.sliceEnc(t), Out: g.newSlot()}, true
 
 	case "transpose":
@@ -702,6 +714,24 @@ func (g *Gen) genFamily(fam string) (Op, bool) {
 		}
 		t := w.get(a)
 		d := t.Dims()
+		if r.Intn(8) == 0 {
+			ax := r.Intn(d)
+			n := 1 + r.Intn(4)
+			idx := make([]int, n)
+			for i := range idx {
+				idx[i] = r.Intn(t.Shape()[ax])
+			}
+			if r.Intn(20) == 0 {
+				idx[0] = t.Shape()[ax] + 1
+			}
+			if r.Intn(3) == 0 {
+				// the backward pass: gradient tensor of the selected shape
+				sel := Op{Name: "ByIndices", In: []int{a}, I: idx, N: ax, Out: g.newSlot()}
+				g.queue = append(g.queue, Op{Name: "ByIndicesB", In: []int{a, sel.Out}, I: cloneInts(idx), N: ax, Out: g.newSlot()})
+				return sel, true
+			}
+			return Op{Name: "ByIndices", In: []int{a}, I: idx, N: ax, Out: g.newSlot()}, true
+		}
 		switch r.Intn(9) {
 		case 0, 1, 2, 3:
 			ins := []int{a}
@@ -828,12 +858,44 @@ func (g *Gen) genFamily(fam string) (Op, bool) {
 		case 10, 11:
 			return Op{Name: "MaskRuns", In: []int{a}, Out: -1}, true
 		case 12:
+			if r.Intn(2) == 0 {
+				d := g.pickWritable(nil)
+				if d >= 0 {
+					td := w.get(d)
+					ins := []int{d}
+					for i := 0; i < 1+r.Intn(2); i++ {
+						ins = append(ins, g.pick(func(x *tensor.Dense) bool { return x.Shape().TotalSize() == td.Shape().TotalSize() }))
+					}
+					return Op{Name: "MaskFromDense", In: ins, Out: -1}, true
+				}
+			}
 			return Op{Name: "Filled", In: []int{a}, F: float64(r.Intn(5)), Out: g.newSlot()}, true
 		default:
 			return Op{Name: "MaskAt", In: []int{a}, I: g.coords(t), Out: -1}, true
 		}
 
 	case "convert":
+		switch r.Intn(9) {
+		case 0:
+			a := g.pick(and(isDt("float64"), dimsIs(2)))
+			if a >= 0 {
+				op := Op{Name: "FromMat64", In: []int{a}, Out: g.newSlot()}
+				if r.Intn(3) == 0 && !g.tainted(a) {
+					op.Mode = "unsafe"
+				}
+				return op, true
+			}
+		case 1:
+			a := g.pick(and(isDt("float64", "float32", "int"), func(t *tensor.Dense) bool { return t.Dims() >= 2 }))
+			if a >= 0 {
+				return Op{Name: "NativeSelect", In: []int{a}, N: r.Intn(w.get(a).Dims()), Out: -1}, true
+			}
+		case 2:
+			a := g.pick(dimsIs(2))
+			if a >= 0 {
+				return Op{Name: "Diag", In: []int{a}, Out: g.newSlot()}, true
+			}
+		}
 		if r.Intn(3) == 0 {
 			a := g.pick(and(isDt("float64"), dimsIs(2)))
 			if a < 0 {
